@@ -96,7 +96,7 @@ def gen_inputs(h, n, seed, case):
             d.update(fixed)
             yield d, True
         return
-    for _ in range(n):
+    while True:     # the consumer stops after n accepted cases or the attempt budget
         d = {k: dom.sample(rng) for k, dom in doms.items()}
         d.update(fixed)
         yield d, False
@@ -110,8 +110,12 @@ def cmd_sample(hid, n, seed, fixed_json):
     fails = []
     exhaustive = False
     first = None
+    attempts = 0
     for inputs, exh in gen_inputs(h, n, seed, fixed):
         exhaustive = exh
+        attempts += 1
+        if not exh and (npass >= n or attempts > 400 * n):
+            break
         st, detail = run_one(h, inputs)
         if first is None and st == "pass":
             first = {k: encode_value(v) for k, v in inputs.items()}
